@@ -68,9 +68,18 @@ class sink(Sink):
     def update(self, x, who=None, metadata=None):
         result = self.func(x, *self.args, **self.kwargs)
         if gen.isawaitable(result):
+            if metadata:
+                # hold the element until the consumer has finished with it
+                self._retain_refs(metadata)
+                return self._release_when_done(result, metadata)
             return result
         else:
             return []
+
+    async def _release_when_done(self, awaitable, metadata):
+        result = await awaitable
+        self._release_refs(metadata)
+        return result
 
 
 @Stream.register_api()
